@@ -41,10 +41,12 @@ def prepare_tree(workdir):
     return t
 
 
-def dump_mir(tree, crate_dir, target, default_features=False, timeout=600, log=None):
+def dump_mir(tree, crate_dir, target, default_features=False, timeout=600, log=None, features=()):
     cmd = ["cargo", "+nightly", "rustc", "--offline", "--lib"]
     if not default_features:
         cmd.append("--no-default-features")
+    if features:
+        cmd += ["--features", ",".join(features)]
     cmd += ["--", "-Zunpretty=mir", "-C", "debug-assertions=off", "-C", "overflow-checks=on"]
     t0 = time.time()
     try:
